@@ -238,8 +238,7 @@ Lemma eta v : mkV (vol v) (adds v) (nons v) = v. Proof. destruct v; reflexivity.
 Ltac pure := intros; cbv delta [gen_blend_vqip_after gen_sum_vqip_after
   gen_concentration_to_total_after gen_total_to_concentration_after gen_extract_vqip_after
   gen_extract_vqip_c_after gen_v_distill_vqip_after gen_v_distill_vqip_c_after
-  gen_v_change_vqip_after gen_v_change_vqip_c_after gen_ds_vqip_after gen_ds_vqip_c_after
-  gen_generic_temperature_decay_after gen_generic_temperature_decay_c_after] beta;
+  gen_v_change_vqip_after gen_v_change_vqip_c_after gen_ds_vqip_after gen_ds_vqip_c_after] beta;
   rewrite ?eta; reflexivity.
 Theorem blend_pure a b : gen_blend_vqip_after a b = (a, b). Proof. pure. Qed.
 Theorem sum_pure a b : gen_sum_vqip_after a b = (a, b). Proof. pure. Qed.
@@ -253,5 +252,3 @@ Theorem change_pure a v : gen_v_change_vqip_after a v = a. Proof. pure. Qed.
 Theorem change_c_pure a v : gen_v_change_vqip_c_after a v = a. Proof. pure. Qed.
 Theorem ds_pure a b : gen_ds_vqip_after a b = (a, b). Proof. pure. Qed.
 Theorem ds_c_pure a b : gen_ds_vqip_c_after a b = (a, b). Proof. pure. Qed.
-Theorem decay_pure a d T : gen_generic_temperature_decay_after a d T = a. Proof. pure. Qed.
-Theorem decay_c_pure a d T : gen_generic_temperature_decay_c_after a d T = a. Proof. pure. Qed.
